@@ -1,4 +1,5 @@
 import PsV.Model.Nnls
+import PsV.Model.WalkBlocks
 import PsV.Driver.Common
 /-!
 Driver for C11 (NNLS solvers).  Stateful line protocol:
@@ -8,7 +9,12 @@ Driver for C11 (NNLS solvers).  Stateful line protocol:
   `X id solver tolbits xbits*n`                                    vector returned by the C solver
         → `x finite=<0/1> nonneg=<0/1> negok=<0/1> kkt=<0/1> dist=<0/1/na> need=<f> tolmax=<f> rel=<f> maxdiff=<f|na> negpart=<f>`
   `B3 id tolbits maxiter`                                          run the BLOCK3 state machine with exact solves
-        → `b3 exit=<converged|iterCap|innerFuel> full=<n> boundary=<n> walk=<n> kkt=<0/1> dist=<0/1/na>`
+        → `b3 exit=<converged|iterCap|innerFuel> full=<n> boundary=<n> walk=<n> forced=<n> kkt=<0/1> dist=<0/1/na>`   (forced: walks whose last trial was taken by the forced-step rule)
+
+  `BL n m mult bettermask`                                         result loop of `walk_descents` (`blockLoopL`): `n` workers, `m = n_alpha` trials,
+        → `bl base=<k|none> chosen=<k|none> feasible=<0/1/na>`     last-trial test `i*mult + j == m-1`, trial `k` reduces the residual iff bit `k` of the mask
+  `AR id k h2_1 … h2_r`                                            rows `h2_*` added to the full-size factor of the current system whose passive set is
+        → `ar rows=<r> written=<some|none> represents=<0/1> settled=<some|none> coupled=<0/1>`     `{0..k-1} \ H2` (`addRows` / `addRowsSettled`)
 
 All decisions (`kkt`, `dist`, `nonneg`, `negok`, `spd`) are made by the definitions of `PsV.Nnls` on exact rationals.
 -/
@@ -193,7 +199,36 @@ def runB3 (s : Sys) (tolS : Rat) (maxIter : Nat) : String :=
   let dist := match s.ref with
     | none => "na"
     | some r => b2s (distCheck n s.mat tol x (vecOf r))
-  s!"b3 exit={showExit ex} full={st.nFull} boundary={st.nBoundary} walk={st.nWalk} kkt={b2s (kktCheck n s.mat s.vec x tol)} dist={dist}"
+  s!"b3 exit={showExit ex} full={st.nFull} boundary={st.nBoundary} walk={st.nWalk} forced={st.nForced} kkt={b2s (kktCheck n s.mat s.vec x tol)} dist={dist}"
+
+def showOptNat : Option Nat → String
+  | some k => toString k
+  | none => "none"
+
+/-- the result loop of `walk_descents` over blocks of workers (`PsV.Nnls.blockLoopL`) -/
+def runBL (n m mult mask : Nat) : String :=
+  let c : Sync.Cfg := { n := n, m := m, less := fun a b => b == 0 && mask.testBit a, repaired := true }
+  let r := blockLoopL c mult
+  match r.2 with
+  | some (k, f) => s!"bl base={showOptNat r.1} chosen={showOptNat k} feasible={b2s f}"
+  | none => s!"bl base={showOptNat r.1} chosen=none feasible=na"
+
+/-- rows `h2` added to the full-size factor with passive set `{0..k-1} \ h2` of the current system, as written and with the
+    sets settled first; `represents`: the result equals `repMat A F'` on `[0,n)²` (instance of `modify_factor_add_rows_represents`) -/
+def runAR (s : Sys) (k : Nat) (h2 : List Nat) : String :=
+  let n := s.n
+  let A := s.mat
+  let S : Nat → Bool := fun i => decide (i < k) && !h2.contains i
+  let S' : Nat → Bool := fun i => S i || h2.contains i
+  let R0 := repMat A S
+  let w := addRows n A S h2 R0
+  let rep := match w with
+    | none => false
+    | some R => (List.range n).all fun i => (List.range n).all fun j => R i j == repMat A S' i j
+  let st := addRowsSettled n A S' h2 R0
+  -- some row is coupled to a row added before it
+  let coupled := (List.range h2.length).any fun q => (List.range q).any fun p => !(A (h2.getD q 0) (h2.getD p 0) == 0)
+  s!"ar rows={h2.length} written={if w.isSome then "some" else "none"} represents={b2s rep} settled={if st.isSome then "some" else "none"} coupled={b2s coupled}"
 
 def step (st : Sys) (ws : List String) : Sys × String :=
   match ws with
@@ -220,6 +255,14 @@ def step (st : Sys) (ws : List String) : Sys × String :=
         match us.mapM fun u => ratOfBits u.toUInt64 with
         | none => (st, "x finite=0")
         | some xr => (st, checkX st (solver == "0" || solver == "4") tolS xr.toArray)
+  | ["BL", n, m, mult, mask] =>
+    match n.toNat?, m.toNat?, mult.toNat?, mask.toNat? with
+    | some n, some m, some mult, some mask => (st, runBL n m mult mask)
+    | _, _, _, _ => (st, "bad-input")
+  | "AR" :: _id :: k :: h2 =>
+    match k.toNat?, h2.mapM fun t => t.toNat? with
+    | some k, some h2 => (st, runAR st k h2)
+    | _, _ => (st, "bad-input")
   | ["B3", _id, tolb, mi] =>
     match tolb.toNat? >>= (fun u => ratOfBits u.toUInt64), mi.toNat? with
     | some tolS, some maxIter => (st, runB3 st tolS maxIter)
